@@ -1,26 +1,34 @@
-//! Storage driver (C19): append / fetch_or_append histories on Storage<f64> and Storage<String>;
-//! after every operation, lookups through ALL tokens handed out so far.
+//! Storage driver (C19): append / fetch_or_append histories on Storage<f64> (with +0.0 / -0.0, which
+//! are equal but distinguishable, and NaN) and on Storage<KeyTag> (an arbitrary non-reflexive
+//! equality: same key and different tag); after every operation, lookups through ALL tokens handed out.
 use crate::util::*;
 use rspirv::sr::storage::{Storage, Token};
 use serde_json::{json, Value};
 use std::io::BufRead;
 
-trait Elem: PartialEq + Sized { fn of(label: &str) -> Self; fn label(&self) -> String; }
+trait Elem: PartialEq + Sized { fn of(v: &Value) -> Self; fn label(&self) -> Value; }
 impl Elem for f64 {
-    fn of(l: &str) -> f64 { match l { "a" => 1.0, "b" => 2.5, "nan" => f64::NAN, "c" => 3.5, "dd" => 4.5, "eee" => 5.5, _ => -1.0 } }
-    fn label(&self) -> String {
-        if self.is_nan() { return "nan".into(); }
-        for (v, l) in [(1.0, "a"), (2.5, "b"), (3.5, "c"), (4.5, "dd"), (5.5, "eee")] { if *self == v { return l.into(); } }
-        format!("{}", self)
+    fn of(v: &Value) -> f64 {
+        match (v["k"].as_str().unwrap(), v["t"].as_i64().unwrap()) { ("zero", 0) => 0.0, ("zero", _) => -0.0, ("one", _) => 1.0, ("nan", _) => f64::NAN, ("o1", _) => 3.0, ("o2", _) => 4.0, _ => 5.0 }
+    }
+    fn label(&self) -> Value {
+        if self.is_nan() { json!({"k": "nan", "t": 0, "m": "nan"}) }
+        else if *self == 0.0 { json!({"k": "zero", "t": if self.is_sign_negative() { 1 } else { 0 }, "m": "std"}) }
+        else if *self == 1.0 { json!({"k": "one", "t": 0, "m": "std"}) }
+        else if *self == 3.0 { json!({"k": "o1", "t": 0, "m": "std"}) }
+        else if *self == 4.0 { json!({"k": "o2", "t": 0, "m": "std"}) }
+        else { json!({"k": "other", "t": 0, "m": "std"}) }
     }
 }
-/// a String-like element type whose "nan" value is unequal to itself
 #[derive(Debug)]
-struct Odd(String);
-impl PartialEq for Odd { fn eq(&self, o: &Odd) -> bool { self.0 != "nan" && self.0 == o.0 } }
-impl Elem for Odd { fn of(l: &str) -> Odd { Odd(l.to_string()) } fn label(&self) -> String { self.0.clone() } }
+struct KeyTag(String, i64);
+impl PartialEq for KeyTag { fn eq(&self, o: &KeyTag) -> bool { self.0 == o.0 && self.1 != o.1 } }
+impl Elem for KeyTag {
+    fn of(v: &Value) -> KeyTag { KeyTag(v["k"].as_str().unwrap().to_string(), v["t"].as_i64().unwrap()) }
+    fn label(&self) -> Value { json!({"k": self.0, "t": self.1, "m": "difftag"}) }
+}
 
-fn run<T: Elem>(out: &mut Out, ty: &str, ops: &[(String, String)]) {
+fn run<T: Elem>(out: &mut Out, ty: &str, ops: &[(String, Value)]) {
     out.ev(json!({"ev": "snew", "ty": ty}));
     let mut s: Storage<T> = Storage::new();
     let mut toks: Vec<Token<T>> = vec![];
@@ -28,7 +36,7 @@ fn run<T: Elem>(out: &mut Out, ty: &str, ops: &[(String, String)]) {
         let r = catch(|| {
             let t = if op == "append" { s.append(T::of(v)) } else { s.fetch_or_append(T::of(v)) };
             toks.push(t);
-            let lookups: Vec<String> = toks.iter().map(|t| s[*t].label()).collect();
+            let lookups: Vec<Value> = toks.iter().map(|t| s[*t].label()).collect();
             (t.index(), lookups)
         });
         match r {
@@ -37,28 +45,33 @@ fn run<T: Elem>(out: &mut Out, ty: &str, ops: &[(String, String)]) {
         }
     }
 }
+fn run_any(out: &mut Out, ops: &[(String, Value)]) {
+    if ops.first().map(|o| o.1["m"] == "difftag").unwrap_or(false) { run::<KeyTag>(out, "keytag", ops) } else { run::<f64>(out, "f64", ops) }
+}
 
 pub fn drive(args: &[String]) {
     let mut out = Out::create(arg(args, "--out").expect("--out"));
     let mut histories = 0;
-    if let Some(h) = arg(args, "--histories") {
+    for h in args.iter().enumerate().filter(|(_, a)| *a == "--histories").map(|(i, _)| args[i + 1].clone()) {
         let f = std::io::BufReader::new(std::fs::File::open(h).expect("histories"));
         for line in f.lines() {
             let line = line.unwrap();
             if line.trim().is_empty() { continue; }
             let v: Value = serde_json::from_str(&line).unwrap();
-            let ops: Vec<(String, String)> = v["ops"].as_array().unwrap().iter().map(|o| (o[0].as_str().unwrap().to_string(), o[1].as_str().unwrap().to_string())).collect();
-            run::<f64>(&mut out, "f64", &ops);
-            run::<Odd>(&mut out, "string", &ops);
-            histories += 2;
+            let ops: Vec<(String, Value)> = v["ops"].as_array().unwrap().iter().map(|o| (o[0].as_str().unwrap().to_string(), o[1].clone())).collect();
+            run_any(&mut out, &ops);
+            histories += 1;
         }
     }
     let mut rng = Rng::new(arg_num(args, "--seed", 1));
+    let fvals = [json!({"k": "zero", "t": 0, "m": "std"}), json!({"k": "zero", "t": 1, "m": "std"}), json!({"k": "one", "t": 0, "m": "std"}), json!({"k": "nan", "t": 0, "m": "nan"}),
+                 json!({"k": "o1", "t": 0, "m": "std"}), json!({"k": "o2", "t": 0, "m": "std"})];
+    let kvals: Vec<Value> = (0..3).flat_map(|k| (0..3).map(move |t| json!({"k": format!("k{}", k), "t": t, "m": "difftag"}))).collect();
     for k in 0..arg_num(args, "--random", 0) {
         let n = 1 + rng.below(if k % 10 == 0 { 150 } else { 40 });
-        let ops: Vec<(String, String)> = (0..n).map(|_| (rng.pick(&["append", "fetch_or_append", "fetch_or_append"]).to_string(),
-            rng.pick(&["a", "b", "nan", "c", "dd", "eee"]).to_string())).collect();
-        if k % 2 == 0 { run::<f64>(&mut out, "f64", &ops) } else { run::<Odd>(&mut out, "string", &ops) }
+        let pool: &[Value] = if k % 2 == 0 { &fvals } else { &kvals };
+        let ops: Vec<(String, Value)> = (0..n).map(|_| (rng.pick(&["append", "fetch_or_append", "fetch_or_append"]).to_string(), rng.pick(pool).clone())).collect();
+        run_any(&mut out, &ops);
         histories += 1;
     }
     let events = out.finish();
